@@ -18,6 +18,30 @@ CLAIMED = {
  "C06": dict(level="exploration", technique="property-based testing with a deterministic iteration bound as livelock detector",
              text="For programs without `!`: id counts and class counts before/after every close, and close_until with a counting condition whose iteration count is compared with a combinatorial bound (no wall clock).",
              note="Termination cannot be established by testing; a livelock is detected through the iteration bound only.", ref="3/C06"),
+ "C03": dict(level="exploration", technique="metamorphic property testing: one fact set rendered into many API histories, final models compared up to isomorphism; idempotence of close",
+             text="Metamorphic testing: a generated fact set (ground atoms with nested terms over named generators) is rendered into a one-shot history and k permuted histories with intermediate closes, duplicated assertions and different generator creation orders; all final models must be isomorphic (generators matched by name) and a second close must change nothing.",
+             note="Implementation-vs-implementation comparison; bounded (diverging) fact sets are discarded.", ref="3/C03"),
+ "C07": dict(level="exploration", technique="two-phase property testing: trace-derived monotone conditions, homomorphism into the reference free model, resumption compared with the reference chase",
+             text="Phase A records the state at every evaluation of the condition; a monotone condition over public queries that first turns true strictly inside the run is derived from the trace; phase B checks the return-value contract, containment of every stopping/observed state in the reference free model, and that close() after the early return (plus further facts) reaches the free model.",
+             note="Judged only where the reference chase terminates within its bound; conditions range over holds/defined/equal on caller-known ids and their and/or combinations.", ref="3/C07"),
+ "C09": dict(level="exploration", technique="generated-program compile testing: repository CLI + real rustc in module and component mode",
+             text="Every generated program (wide profile: arities up to 9, constants, nullary predicates, enums) is compiled by the repository CLI; accepted programs must compile with rustc and link against the runtime in both build modes and run an empty history.",
+             note="Identifier pools avoid Rust keywords and generator-emitted names, as the property states.", ref="3/C09"),
+ "C13": dict(level="exploration", technique="differential testing of repeated compilations (threads, directories, cwd, environment) with byte comparison",
+             text="Each program is compiled 12 times (module/component; repeat; RAYON_NUM_THREADS 1/2/3/16; different absolute and relative directories; different environment) and all generated files and digests are compared byte for byte.",
+             note="Component libraries are produced by a deterministic stand-in for rustc.", ref="3/C13"),
+ "C15": dict(level="exploration", technique="property-based testing of enum destructuring + static API scan + rejected mutants",
+             text="After every close every id of every enum type is destructured (<enum>_cases and <enum>_case) and re-constructed; the emitted API is scanned for element constructors that bypass constructors; mutant rules defining non-constructor enum terms must be rejected.",
+             note="Histories create enum elements only through constructor applications because the API offers nothing else.", ref="3/C15"),
+ "C16": dict(level="exploration", technique="generated programs; executable predicate over the emitted rule functions (all 2^n new/old labellings per family)",
+             text="For every generated program the emitted sub-rule families are parsed (flat-rule comment and index fields read per premise position) and every new/old labelling is checked to be admitted by exactly one sub-rule (none for all-old).",
+             note="A statement about emitted plans; decided by enumeration over labellings for each generated program, not by running the model.", ref="3/C16"),
+ "C19": dict(level="exploration", technique="text comparison of module vs component outputs + differential execution of generated histories on both builds",
+             text="Component sources are compared with the rule modules of the module build, environment structs/signatures/link names on both sides of the boundary are compared, and generated histories must give byte-identical transcripts on both drivers.",
+             note="Real rustc builds the component libraries.", ref="3/C19"),
+ "C20": dict(level="exploration", technique="differential execution: same script in three fresh processes with different layouts/environments, byte-identical transcripts",
+             text="Every generated history is executed three times in fresh processes (ASLR, environment size, allocator settings, stack size) and complete transcripts including private index dumps are compared.",
+             note="Nondeterminism that needs more than three executions to show is not detected.", ref="3/C20"),
  "C08": dict(level="exploration", technique="model-based property testing (proptest) + libFuzzer against BTreeSet reference", text="Operation sequences over families of containers of every arity 0..9 compared step by step with BTreeSet models; clone independence checked after every op.", note="get_mut/iter_restrictions_mut excluded (not in the property).", ref="3/C08"),
  "C14": dict(level="exploration", technique="model-based property testing + bounded exhaustive enumeration + libFuzzer against BTreeMap; balance via verif hook", text="Random and exhaustive (bounded) op sequences on families of clones against BTreeMap; weight balance, exact sizes and height bound after every op through the verif_shape hook.", note="Needs the `verif` feature hook in eqlog-runtime.", ref="3/C14"),
  "C18": dict(level="exploration", technique="property-based testing with a validity-predicate oracle + libFuzzer", text="Random multigraphs with partial dom/cod tables and random new/old splits; oracle is a validity predicate on the returned order plus Err iff cyclic.", note="Inputs restricted to what the generated caller can produce (functional tables).", ref="3/C18"),
